@@ -197,7 +197,8 @@ fn enumerate_expiry(ctx: &mut Ctx, s: &Session, l1: &[Mv], tf: &ThreeFold, tf_us
     let extra = if terminal { 2 } else { 3 };
     for _ in 0..extra {
         let hi: u32 = if terminal { 70_000 } else { 200_000 };
-        let kk = ctx.tape.log_uniform(hi) as u64;
+        // on a terminal root every pass costs one poll: go beyond the 16-bit depth range now and then
+        let kk = if terminal && ctx.tape.choose(4) == 3 { 66_000 } else { ctx.tape.log_uniform(hi) as u64 };
         if terminal && kk > 60_000 {
             ctx.stats.bump("probe.terminal-root-beyond-u16-passes");
         }
